@@ -10,12 +10,8 @@ PROP = "C02"
 
 
 def export_layouts():
-    out = os.path.join(vflib.sub("export"), "layouts.json")
-    if not os.path.exists(out):
-        r = vflib.tlc("MC_Export", "MC_Export.cfg", workers=1, env={"VF_OUT": out})
-        if not r.clean or not os.path.exists(out):
-            raise vflib.Infra("layout export failed:\n" + r.out[-2000:])
-    return out
+    from .c05 import export
+    return export()[0]
 
 
 def field_at(layouts, op, off):
